@@ -19,7 +19,7 @@ theorem specDecide_none_valid {l : List Nat} {d : List Bytes} {t : List Rec} {q 
   unfold specDecide at h
   repeat' split at h
   all_goals first | cases h | skip
-  rename_i h1 h2 h3 h4 h5 h6 h7
+  rename_i h1 h1' h2 h3 h4 h5 h6 h7
   exact ⟨by simpa using h3, by simpa using h4⟩
 
 theorem occupied_normalise {users : List Bytes} {q : Req} (h : validNameSpec q.name = true) :
@@ -273,16 +273,6 @@ theorem inv_reload {srt : Sorter} (hs : SortSpec srt) (brd : List Rec) (users : 
     rw [List.getElem?_replicate, if_pos (by omega)]
 
 /-! ### the attribute rules -/
-
-theorem hasBit_or (a m m' : Nat) : hasBit (a ||| m) m' = (hasBit a m' || hasBit m m') := by
-  unfold hasBit
-  rw [Nat.and_or_distrib_right]
-  by_cases h1 : a &&& m' = 0
-  · rw [h1, Nat.zero_or]; simp
-  · have : (a &&& m' ||| m &&& m') ≠ 0 := fun e => h1 (Nat.or_eq_zero_iff.mp e).1
-    have e1 : ((a &&& m' ||| m &&& m') != 0) = true := by simpa using this
-    have e2 : ((a &&& m') != 0) = true := by simpa using h1
-    rw [e1, e2]; rfl
 
 /-- the attribute and level rules of `mNewbrd`, bit by bit. -/
 theorem attr_rules (q : Req) :
